@@ -49,7 +49,7 @@ class EagerModel(Model):
         else:
             r = substituter.substitute(formula, self.assignment)
 
-        res = r.simplify()
+        res = self.environment.simplifier.simplify(r)
         if not res.is_constant():
             raise PysmtTypeError("Was expecting a constant but got %s" % res)
         return res
